@@ -435,7 +435,16 @@ def setitem_value(M, cont, idx, val, st, node, aug=None):
             if isinstance(pv, MaskSel):
                 mid = (idx[0].oid, st.ver.get(idx[0].oid, 0)) if isinstance(idx[0], Ref) else None
                 if pv.mask_id is None or pv.mask_id != mid:
-                    raise Unsupported('mask assignment from a selection with a different mask')
+                    # two mask objects: the same semantics applies when they are point-wise equal (numpy pairs the selected
+                    # elements in row-major order) - that equality is an obligation; nothing else is modelled
+                    pm = pv.mask
+                    if not (isinstance(pm, SArr) and pm.ndim == m.ndim):
+                        raise Unsupported('mask assignment from a selection with a different mask')
+                    ixs = [bvar('q') for _ in range(m.ndim)]
+                    rng_ = AND(*[in_range(ix, 0, d) for ix, d in zip(ixs, m.shape)])
+                    eqm = AND(M.shape_eq(pm.shape, m.shape), forall(ixs, IMPLIES(rng_, Z(tr(m.get(*ixs))) == Z(tr(pm.get(*ixs))))))
+                    ex.oblige(st, 'mask-eq', eqm, node, text='the mask selecting the source equals the mask selecting the target')
+                    st.assume(eqm)
                 src = pv.src
                 same2 = M.shape_eq(a.shape, src.shape); ex.oblige(st, 'shape', same2, node); st.assume(same2)
                 return SArr(a.shape, lambda *ix: ITE(tr(m.get(*ix)), upd(a.get(*ix), src.get(*ix)), a.get(*ix)), a.kind)
